@@ -17,16 +17,17 @@
    pre-computed fields, closure and bounding box).  Wrapped SDF arguments are assumed non-nil,
    as in the model (`x == nil` is translated to `false`).
 
-   Deviations of the hand model from the Go source found by this file (Shape.v is not edited
-   here; see the `_deviation` / `_modulo` lemmas):
-   * v2divs / v3divs (Geo/Vec.v) divide component-wise; Go's Vec.DivScalar is
-     `a.MulScalar(1 / b)`.  Equal in exact arithmetic, not in float64
-     (`divscalar_deviates_float`).  Used by ex_scale / ex_scaletwist (the slope `m`).
-   * k_loft (Sdf/Shape.v) has no `if s.height != 0` guard around the mix factor: the Go code
-     (after fix 418602f) uses k = 0.5 when height = 2*round; the model computes
-     clamp (0.5*z/0 + 0.5) there.  Equal whenever sh =? 0 is false. *)
-From Coq Require Import ZArith List Bool Floats.
-From Sdfx Require Import Num.Ops Num.FInst Geo.Vec Geo.Box Geo.Mat Sdf.Union2 Sdf.Shape Generated.SdfExpr.
+   Deviations of the hand model from the Go source that the first version of this file exposed
+   (the equalities below did not hold); both have since been repaired in the model, and the
+   lemmas are now plain equalities:
+   * v2divs / v3divs (Geo/Vec.v) divided component-wise; Go's Vec.DivScalar is
+     `a.MulScalar(1 / b)` (differs in float64: 3*(1/10) <> 3/10).  Used by ex_scale /
+     ex_scaletwist (the slope `m`).
+   * k_loft (Sdf/Shape.v) had no `if s.height != 0` guard around the mix factor: the Go code
+     (after fix 418602f) uses k = 0.5 when height = 2*round; the model computed
+     clamp (0.5*z/0 + 0.5) = NaN on the mid-plane there. *)
+From Coq Require Import ZArith List Bool.
+From Sdfx Require Import Num.Ops Geo.Vec Geo.Box Geo.Mat Sdf.Union2 Sdf.Shape Generated.SdfExpr.
 Import OpsNotations ListNotations.
 Local Open Scope ops_scope.
 
@@ -40,11 +41,11 @@ Ltac open_k H :=
 (* constructor equality: split on the argument checks (the same boolean terms on both sides),
    then both sides are the same object up to conversion *)
 Ltac ctor_eq :=
-  cbn [orb andb];
+  cbv zeta; cbn [orb andb];
   repeat (try reflexivity;
           match goal with
           | |- context [if ?c then _ else _] =>
-              lazymatch c with false => fail | true => fail | _ => destruct c end
+              lazymatch c with false => fail | true => fail | negb ?d => destruct d | _ => destruct c end
           end);
   reflexivity.
 
@@ -75,12 +76,7 @@ Section GenEq.
   Lemma v2_MaxComponent_eq : forall a : V2, v2_Vec_MaxComponent a = v2maxcomp a. Proof. reflexivity. Qed.
   Lemma v2_clamp_eq : forall x a b : T, v2_clamp x a b = clamp x a b. Proof. reflexivity. Qed.
   Lemma v2_Clamp_eq : forall a b c : V2, v2_Vec_Clamp a b c = v2clamp a b c. Proof. reflexivity. Qed.
-  (* Vec.DivScalar is a.MulScalar(1 / b): what the Go code computes ... *)
-  Lemma v2_DivScalar_go : forall (a : V2) (k : T), v2_Vec_DivScalar a k = v2muls a (o1 O / k). Proof. reflexivity. Qed.
-  (* ... which is the model's v2divs only where x / k = x * (1 / k) *)
-  Lemma v2_DivScalar_modulo : (forall x k : T, x / k = x * (o1 O / k)) ->
-    forall (a : V2) (k : T), v2_Vec_DivScalar a k = v2divs a k.
-  Proof. intros Hd a k. unfold v2_Vec_DivScalar, v2_Vec_MulScalar, v2divs. rewrite <- !Hd. reflexivity. Qed.
+  Lemma v2_DivScalar_eq : forall (a : V2) (k : T), v2_Vec_DivScalar a k = v2divs a k. Proof. reflexivity. Qed.
 
   (* ------------------------------------------------------------ vec/v3/v3.go *)
   Lemma v3_Add_eq : forall a b : V3, v3_Vec_Add a b = v3add a b. Proof. reflexivity. Qed.
@@ -103,11 +99,7 @@ Section GenEq.
   Lemma v3_MaxComponent_eq : forall a : V3, v3_Vec_MaxComponent a = v3maxcomp a. Proof. reflexivity. Qed.
   Lemma v3_clamp_eq : forall x a b : T, v3_clamp x a b = clamp x a b. Proof. reflexivity. Qed.
   Lemma v3_Clamp_eq : forall a b c : V3, v3_Vec_Clamp a b c = v3clamp a b c. Proof. reflexivity. Qed.
-  Lemma v3_DivScalar_go : forall (a : V3) (k : T), v3_Vec_DivScalar a k = v3muls a (o1 O / k). Proof. reflexivity. Qed.
-  Lemma v3_DivScalar_modulo : (forall x k : T, x / k = x * (o1 O / k)) ->
-    forall (a : V3) (k : T), v3_Vec_DivScalar a k = v3divs a k.
-  Proof. intros Hd a k. unfold v3_Vec_DivScalar, v3_Vec_MulScalar, v3divs. rewrite <- !Hd. reflexivity. Qed.
-
+  Lemma v3_DivScalar_eq : forall (a : V3) (k : T), v3_Vec_DivScalar a k = v3divs a k. Proof. reflexivity. Qed.
   Lemma v3_LTEZero_eq : forall a : V3, v3_Vec_LTEZero a = v3_lte_zero a. Proof. reflexivity. Qed.
 
   (* ------------------------------------------------------------ sdf/box2.go, sdf/box3.go *)
@@ -154,36 +146,12 @@ Section GenEq.
   Lemma TwistExtrude_eq : forall (height twist : T) (p : V3), sdf_TwistExtrude height twist p = ex_twist height twist p.
   Proof. reflexivity. Qed.
 
-  (* ScaleExtrude / ScaleTwistExtrude: the Go slope is inv.Sub({1,1}).DivScalar(height), i.e.
-     multiplied by 1/height; the model's ex_scale divides by height (v2divs). *)
-  Definition ex_scale_go (height : T) (scale : V2) : V3 -> V2 :=
-    let inv := mkV2 (o1 O / vx scale) (o1 O / vy scale) in
-    let m := v2muls (v2sub inv (mkV2 (o1 O) (o1 O))) (o1 O / height) in
-    let b := v2adds (v2muls inv k05) k05 in
-    fun p => v2mul (mkV2 (wx p) (wy p)) (v2add (v2muls m (wz p)) b).
-  Definition ex_scaletwist_go (height twist : T) (scale : V2) : V3 -> V2 :=
-    let k := twist / height in
-    fun p => m22_mulposition (mk_rotate (wz p * k)) (ex_scale_go height scale p).
-
-  Lemma ScaleExtrude_go : forall (height : T) (scale : V2) (p : V3),
-    sdf_ScaleExtrude height scale p = ex_scale_go height scale p.
+  Lemma ScaleExtrude_eq : forall (height : T) (scale : V2) (p : V3),
+    sdf_ScaleExtrude height scale p = ex_scale height scale p.
   Proof. reflexivity. Qed.
-  Lemma ScaleTwistExtrude_go : forall (height twist : T) (scale : V2) (p : V3),
-    sdf_ScaleTwistExtrude height twist scale p = ex_scaletwist_go height twist scale p.
+  Lemma ScaleTwistExtrude_eq : forall (height twist : T) (scale : V2) (p : V3),
+    sdf_ScaleTwistExtrude height twist scale p = ex_scaletwist height twist scale p.
   Proof. reflexivity. Qed.
-  Lemma ScaleExtrude_modulo : (forall x k : T, x / k = x * (o1 O / k)) ->
-    forall (height : T) (scale : V2) (p : V3), sdf_ScaleExtrude height scale p = ex_scale height scale p.
-  Proof.
-    intros Hd height scale p. rewrite ScaleExtrude_go. unfold ex_scale_go, ex_scale.
-    rewrite <- (v2_DivScalar_modulo Hd). reflexivity.
-  Qed.
-  Lemma ScaleTwistExtrude_modulo : (forall x k : T, x / k = x * (o1 O / k)) ->
-    forall (height twist : T) (scale : V2) (p : V3),
-      sdf_ScaleTwistExtrude height twist scale p = ex_scaletwist height twist scale p.
-  Proof.
-    intros Hd height twist scale p. rewrite ScaleTwistExtrude_go. unfold ex_scaletwist_go, ex_scaletwist.
-    rewrite <- (ScaleExtrude_go height scale p), (ScaleExtrude_modulo Hd). reflexivity.
-  Qed.
 
   (* ------------------------------------------------------------ sdf/sdf2.go *)
   Lemma sdfBox2d_eq : forall p s : V2, sdf_sdfBox2d p s = sdf_box2d p s. Proof. reflexivity. Qed.
@@ -227,6 +195,22 @@ Section GenEq.
   Lemma Elongate2_eq : forall (s : Obj2 O) h o p, k_elongate2 s h = Some o ->
     sdf_ElongateSDF2_Evaluate (ev2 s) (v2muls (v2abs h) k05) (v2muls (v2abs h) (- k05)) p = ev2 o p.
   Proof. intros s h o p H. unfold k_elongate2 in H. open_k H. reflexivity. Qed.
+
+  (* RotateCopy2D: theta = tau / n *)
+  Lemma P2ToV2_eq : forall r th : T, conv_P2ToV2 (r, th) = mkV2 (r * ocos O th) (r * osin O th). Proof. reflexivity. Qed.
+  Lemma RotateCopy2_eq : forall (s : Obj2 O) n o p, k_rotatecopy2 s n = Some o ->
+    sdf_RotateCopySDF2_Evaluate (ev2 s) (tau / ofZ O n) p = ev2 o p.
+  Proof. intros s n o p H. unfold k_rotatecopy2 in H. open_k H. reflexivity. Qed.
+
+  (* Slice2D: the in-plane axes it pre-computes *)
+  Definition slice_u0 (n : V3) : V3 :=
+    if wx n =? o0 O then mkV3 (o1 O) (o0 O) (o0 O)
+    else if wy n =? o0 O then mkV3 (o0 O) (o1 O) (o0 O)
+    else if wz n =? o0 O then mkV3 (o0 O) (o0 O) (o1 O)
+    else mkV3 (wy n) (- wx n) (o0 O).
+  Lemma Slice2_eq : forall (s : Obj3 O) a n o p, k_slice2 s a n = Some o ->
+    sdf_SliceSDF2_Evaluate (ev3 s) a (v3normalize (slice_u0 n)) (v3normalize (v3cross n (slice_u0 n))) p = ev2 o p.
+  Proof. intros s a n o p H. unfold k_slice2 in H. open_k H. reflexivity. Qed.
 
   (* ------------------------------------------------------------ sdf/sdf3.go *)
   Lemma sdfBox3d_eq : forall p s : V3, sdf_sdfBox3d p s = sdf_box3d p s. Proof. reflexivity. Qed.
@@ -291,21 +275,13 @@ Section GenEq.
     intros s height round o p Hr H. unfold k_extruderounded in H. rewrite Hr in H. open_k H. reflexivity.
   Qed.
 
-  (* Loft: what the Go code computes, as a model-level term *)
-  Definition loft_ev_go (f0 f1 : V2 -> T) (sh round : T) (p : V3) : T :=
-    let k := if negb (sh =? o0 O) then clamp ((k05 * wz p / sh) + k05) (o0 O) (o1 O) else k05 in
-    let a := mix (f0 (mkV2 (wx p) (wy p))) (f1 (mkV2 (wx p) (wy p))) k in
-    rounded_combine a (oabs O (wz p) - sh) round.
-  Lemma Loft_go : forall (f0 f1 : V2 -> T) sh round p,
-    sdf_LoftSDF3_Evaluate f0 f1 sh round p = loft_ev_go f0 f1 sh round p.
-  Proof. reflexivity. Qed.
-  (* equal to the model k_loft except on height = 2*round (sh = 0), where k_loft has no guard *)
-  Lemma Loft_modulo : forall (s0 s1 : Obj2 O) height round o p, k_loft s0 s1 height round = Some o ->
-    ((height / two) - round =? o0 O) = false ->
+  (* Go: k := 0.5; if s.height != 0 { k = Clamp(..) } - model: if sh =? 0 then k05 else clamp .. *)
+  Lemma Loft_eq : forall (s0 s1 : Obj2 O) height round o p, k_loft s0 s1 height round = Some o ->
     sdf_LoftSDF3_Evaluate (ev2 s0) (ev2 s1) ((height / two) - round) round p = ev3 o p.
   Proof.
-    intros s0 s1 height round o p H Hsh. unfold k_loft in H. open_k H.
-    unfold sdf_LoftSDF3_Evaluate. cbn [ev3]. rewrite Hsh. reflexivity.
+    intros s0 s1 height round o p H. unfold k_loft in H. open_k H.
+    unfold sdf_LoftSDF3_Evaluate. cbn [ev3].
+    destruct ((height / two) - round =? o0 O); reflexivity.
   Qed.
 
   Lemma Transform3_eq : forall (s : Obj3 O) m o p, k_transform3 s m = Some o ->
@@ -339,6 +315,10 @@ Section GenEq.
   Lemma Shell3_eq : forall (s : Obj3 O) thickness o p, k_shell3 s thickness = Some o ->
     sdf_ShellSDF3_Evaluate (ev3 s) (k05 * thickness) p = ev3 o p.
   Proof. intros s thickness o p H. unfold k_shell3 in H. open_k H. reflexivity. Qed.
+  Lemma RotateCopy3_eq : forall (s : Obj3 O) n o p, k_rotatecopy3 s n = Some o ->
+    sdf_RotateCopySDF3_Evaluate (ev3 s) (tau / ofZ O n) p = ev3 o p.
+  Proof. intros s n o p H. unfold k_rotatecopy3 in H. open_k H. reflexivity. Qed.
+
   (* ------------------------------------------------------------ constructors, object for object *)
   Definition obj2_of (x : (V2 -> T) * Box2 O) : Obj2 O := mkObj2 (fst x) (snd x).
   Definition obj3_of (x : (V3 -> T) * Box3 O) : Obj3 O := mkObj3 (fst x) (snd x).
@@ -416,41 +396,10 @@ Section GenEq.
     option_map obj3_of (sdf_Shell3D (ev3 s) (bb3 s) thickness) = k_shell3 s thickness.
   Proof. intros. unfold sdf_Shell3D, k_shell3. ctor_eq. Qed.
 
-  (* the two constructors whose closures carry a deviation of the model (header) *)
-  Lemma ScaleExtrude3D_ctor_modulo : (forall x k : T, x / k = x * (o1 O / k)) ->
-    forall (s : Obj2 O) (height : T) (scale : V2),
-      option_map obj3_of (sdf_ScaleExtrude3D (ev2 s) (bb2 s) height scale) = k_scaleextrude s height scale.
-  Proof.
-    intros Hd s height scale. unfold sdf_ScaleExtrude3D, k_scaleextrude, sdf_ScaleExtrude, ex_scale.
-    rewrite (v2_DivScalar_modulo Hd). ctor_eq.
-  Qed.
-  Lemma Loft3D_ctor_modulo : forall (s0 s1 : Obj2 O) (height round : T),
-    ((height / two) - round =? o0 O) = false ->
+  Lemma ScaleExtrude3D_ctor : forall (s : Obj2 O) (height : T) (scale : V2),
+    option_map obj3_of (sdf_ScaleExtrude3D (ev2 s) (bb2 s) height scale) = k_scaleextrude s height scale.
+  Proof. intros. unfold sdf_ScaleExtrude3D, k_scaleextrude. ctor_eq. Qed.
+  Lemma Loft3D_ctor : forall (s0 s1 : Obj2 O) (height round : T),
     option_map obj3_of (sdf_Loft3D (ev2 s0) (bb2 s0) (ev2 s1) (bb2 s1) height round) = k_loft s0 s1 height round.
-  Proof.
-    intros s0 s1 height round Hsh. unfold sdf_Loft3D, k_loft, sdf_LoftSDF3_Evaluate.
-    rewrite Hsh. ctor_eq.
-  Qed.
+  Proof. intros. unfold sdf_Loft3D, k_loft, sdf_LoftSDF3_Evaluate. ctor_eq. Qed.
 End GenEq.
-
-(* ------------------------------------------------------------ the deviations are real *)
-(* float64: 3 * (1/10) = 0.30000000000000004, 3 / 10 = 0.3 *)
-Definition dev_a : V2 FOps := mkV2 3%float 3%float.
-Definition dev_k : T FOps := 10%float.
-Lemma divscalar_deviates_float : vx (v2_Vec_DivScalar dev_a dev_k) <> vx (v2divs dev_a dev_k).
-Proof. cbn. intro H. apply (f_equal Prim2SF) in H. vm_compute in H. discriminate H. Qed.
-
-(* Loft with height = 2*round (= 2, 1) at the origin, profiles constant 1 and 3: the Go code
-   gives mix(1, 3, 0.5) - round = 1, k_loft gives NaN (0.5*0/0) *)
-Definition dev_s0 : Obj2 FOps := mkObj2 (fun _ => 1%float) (mkBox2 v2zero v2zero).
-Definition dev_s1 : Obj2 FOps := mkObj2 (fun _ => 3%float) (mkBox2 v2zero v2zero).
-Definition dev_p : V3 FOps := mkV3 0%float 0%float 0%float.
-Definition dev_height : T FOps := 2%float.
-Definition dev_round : T FOps := 1%float.
-Lemma loft_deviates_float :
-  sdf_LoftSDF3_Evaluate (ev2 dev_s0) (ev2 dev_s1) ((dev_height / two) - dev_round) dev_round dev_p = o1 FOps /\
-  match k_loft dev_s0 dev_s1 dev_height dev_round with
-  | Some o => PrimFloat.is_nan (ev3 o dev_p) = true
-  | None => False
-  end.
-Proof. split; vm_compute; reflexivity. Qed.
